@@ -507,7 +507,7 @@ class SSETransport(Transport):
             # Handle different message types
             message_id = message_dict.get("id")
 
-            if message_id is not None:
+            if message_id is not None and "method" in message_dict:
                 # Request - setup for response handling
                 request_id = message_id  # keeps its JSON type for synthesised errors
                 message_id = str(message_id)
@@ -634,7 +634,7 @@ class SSETransport(Transport):
                     answer_routed.set()
 
             else:
-                # Notification - no response expected
+                # Notification, or our answer to a request of the server's - no response expected
                 response = await self._send_client.post(
                     self._message_url, json=message_dict, headers=headers
                 )
